@@ -5,7 +5,10 @@ import (
 	"fmt"
 	"math"
 	"strconv"
+	"strings"
 	"time"
+
+	rt "github.com/enbility/spine-go/internal/verifrt"
 
 	"github.com/enbility/spine-go/internal/verifh/engine"
 	"github.com/enbility/spine-go/internal/verifrt/vtime"
@@ -266,13 +269,77 @@ func abs(k int) int {
 	return k
 }
 
+// c19Conversions: one pass over every conversion of the property for the given seed value; returns a digest.
+func c19Conversions(k int) string {
+	var out []string
+	for _, v := range []float64{float64(k) + 0.29, -float64(k) * 1.5, float64(k) * 1000, 0.0001 * float64(k)} {
+		out = append(out, strconv.FormatFloat(model.NewScaledNumberType(v).GetValue(), 'g', -1, 64))
+	}
+	for _, d := range []time.Duration{time.Duration(k) * time.Second, time.Duration(k)*time.Hour + 100*time.Millisecond, time.Duration(k) * 36 * time.Hour} {
+		dt := model.NewDurationType(d)
+		back, err := dt.GetTimeDuration()
+		out = append(out, fmt.Sprint(*dt, back, err))
+	}
+	t := rt.Epoch.Add(time.Duration(k) * time.Hour).UTC()
+	a := model.NewAbsoluteOrRelativeTimeTypeFromTime(t)
+	bt, err := a.GetTime()
+	out = append(out, fmt.Sprint(*a, bt.UTC().Format(time.RFC3339), err))
+	r := model.NewAbsoluteOrRelativeTimeTypeFromDuration(time.Duration(k) * time.Minute)
+	if rd, err := r.GetDurationType(); err == nil && rd != nil {
+		out = append(out, fmt.Sprint(*r, *rd))
+	} else {
+		out = append(out, fmt.Sprint(*r, err))
+	}
+	var tp model.TimePeriodType
+	if err := json.Unmarshal([]byte(fmt.Sprintf(`{"endTime":%q}`, string(*model.NewDurationType(time.Duration(k)*time.Minute)))), &tp); err == nil {
+		d, err := tp.GetDuration()
+		js, _ := json.Marshal(&tp)
+		out = append(out, fmt.Sprint(d, err, string(js)))
+	}
+	return strings.Join(out, "|")
+}
+
+func c19Scenarios() []*engine.SScenario {
+	return []*engine.SScenario{{Name: "three goroutines convert unrelated values at once", Run: func(cfg rt.Config) rt.Outcome {
+		var viol []string
+		res := rt.Execute(cfg, func() {
+			want := []string{c19Conversions(3), c19Conversions(7), c19Conversions(11)}
+			got := make([]string, 3)
+			rt.BeginExplore()
+			for i, k := range []int{3, 7, 11} {
+				i, k := i, k
+				rt.Go(func() {
+					rt.Yield()
+					got[i] = c19Conversions(k)
+				})
+			}
+			rt.WaitIdle()
+			rt.JoinFinished()
+			for i := range want {
+				if got[i] != want[i] {
+					viol = append(viol, fmt.Sprintf("a conversion gives another result when other goroutines convert at the same time | alone=%s concurrent=%s", want[i], got[i]))
+				}
+			}
+		})
+		return rt.Outcome{Res: res, Violations: append(viol, panicsAndDeadlocks(res)...), Digest: "ok"}
+	}}}
+}
+
 func init() {
 	engine.Register(&engine.Check{
-		ID:       "C19",
-		Families: func(c *engine.Ctx) []*engine.IFamily { return c19Families(c.Thorough) },
+		ID:        "C19",
+		NeedsRace: true,
+		Families:  func(c *engine.Ctx) []*engine.IFamily { return c19Families(c.Thorough) },
+		Scenarios: func(c *engine.Ctx) []*engine.SScenario { return c19Scenarios() },
 		Run: func(c *engine.Ctx) *engine.Report {
 			rep := &engine.Report{Level: "exploration", Coverage: map[string]any{}}
 			engine.RunFamilies(c, c19Families(c.Thorough), rep)
+			ev, _ := rep.Coverage["evaluations"].(int64)
+			rep.Coverage["states"] = 0
+			rep.Coverage["transitions"] = int(ev)
+			// the conversions are pure functions of their argument also when several goroutines convert
+			// unrelated values at once (no shared scratch state): race build on every schedule
+			mergeS(c, rep, c19Scenarios(), engine.SPlan{Bounds: []int{0, 1}, Race: true, RaceProp: true})
 			rep.Assumptions = []string{"the infinite input sets of the property are covered on the stated finite grids only; the clock is a settable shim (vtime.StaticNow) so that relative-time conversions are exactly predictable"}
 			return rep
 		},
